@@ -702,6 +702,16 @@ func (f *srtFlow) walk(body []ast.Stmt, depth int) (*srtSumm, int, bool) {
 	return out, w.Paths, w.Overflow
 }
 
+// srtClauseFact: what the VM does for one opcode — does its clause ever read the
+// source map (a failure it can report), does it move the frame (call / return /
+// jump: the instruction's span shows up in stack traces of callees).
+type srtClauseFact struct {
+	lookups int
+	moves   bool
+}
+
+var srtClauseFacts = map[*Ctx]map[*types.Const]srtClauseFact{}
+
 func srtDispatchOrder(r *srtRoles) []Obligation {
 	c := r.c
 	rp := c.Pkg("homescript/runtime")
@@ -767,6 +777,8 @@ func srtDispatchOrder(r *srtRoles) []Obligation {
 		})
 	}
 	var obs []Obligation
+	facts := map[*types.Const]srtClauseFact{}
+	srtClauseFacts[c] = facts
 	for _, d := range disps {
 		flow.active[info.Defs[d.fd.Name].(*types.Func)] = true
 		for _, cl := range d.sw.Body.List {
@@ -784,6 +796,11 @@ func srtDispatchOrder(r *srtRoles) []Obligation {
 				label = "case " + strings.Join(names, ",")
 			}
 			sm, paths, overflow := flow.walk(cc.Body, 0)
+			for _, e := range cc.List {
+				if k := ConstOf(info, e); k != nil {
+					facts[k] = srtClauseFact{lookups: sm.lookups, moves: sm.exitMoved != "" || overflow}
+				}
+			}
 			// does the clause look the span up at all?
 			if sm.lookups == 0 {
 				continue
